@@ -211,6 +211,10 @@ func (p *PX) term(v ssa.Value, fr *pxFrame, st *pxState) *Term {
 			if t, ok := st.vals[p.reg(fr, v)]; ok {
 				return t
 			}
+			// a read out of a constant table (consttab.go)
+			if t := p.w.ctabTermOf(v, func(iv ssa.Value) *Term { return p.term(iv, fr, st) }); t != nil {
+				return t
+			}
 			if fa, ok := x.X.(*ssa.FieldAddr); ok {
 				key := p.fieldLoadKey(fa, fr, st)
 				if t, ok := st.vals["mem:"+key]; ok {
@@ -286,6 +290,9 @@ func (p *PX) term(v ssa.Value, fr *pxFrame, st *pxState) *Term {
 			}
 		}
 	case *ssa.Field:
+		if t := p.w.ctabTermOf(v, func(iv ssa.Value) *Term { return p.term(iv, fr, st) }); t != nil {
+			return t
+		}
 		a := p.term(x.X, fr, st)
 		return &Term{K: TLeaf, V: v, T: v.Type(), key: fmt.Sprintf("fld(%s,.%d)", a.key, x.Field)}
 	case *ssa.IndexAddr:
@@ -317,6 +324,9 @@ func (p *PX) term(v ssa.Value, fr *pxFrame, st *pxState) *Term {
 		if b, ok := x.X.Type().Underlying().(*types.Basic); ok && b.Info()&types.IsString != 0 {
 			a, i := p.term(x.X, fr, st), p.term(x.Index, fr, st)
 			return &Term{K: TPure, Name: "strindex", Args: []*Term{a, i}, T: v.Type(), key: "idx(" + a.key + "," + i.key + ")"}
+		}
+		if t := p.w.ctabTermOf(v, func(iv ssa.Value) *Term { return p.term(iv, fr, st) }); t != nil {
+			return t
 		}
 	case *ssa.Slice:
 		if p.views {
